@@ -20,16 +20,18 @@ var (
 	tokTokType = reflect.TypeOf(token.Token(0))
 )
 
-// tokTextLen: the length of the text a token.Token field contributes in front of the node's
-// literal text: the spelling of operators and keywords, the prefix of c"..." / py"..." literal
-// kinds, nothing for the other literal classes.
-func tokTextLen(t token.Token) int {
-	switch {
-	case t == token.CSTRING:
-		return 1
-	case t == token.PYSTRING:
-		return 2
-	case t.IsLiteral():
+// tokTextLen: the length of the text a token.Token field contributes to the node's own text,
+// as the Pos()/End() methods use it: a `Kind` field (class of a literal whose text is in Value)
+// contributes the c / py prefix of C and Python string literals (ast.litPrefix); any other
+// token field (Op, Tok) contributes its spelling (len(x.Tok.String())).
+func tokTextLen(field string, t token.Token) int {
+	if field == "Kind" {
+		switch t {
+		case token.CSTRING:
+			return 1
+		case token.PYSTRING:
+			return 2
+		}
 		return 0
 	}
 	return len(t.String())
@@ -55,7 +57,7 @@ func Vals(n ast.Node) [][2]string {
 		case f.Type == tokPosType:
 			res = append(res, [2]string{f.Name, strconv.FormatInt(fv.Int(), 10)})
 		case f.Type == tokTokType:
-			res = append(res, [2]string{f.Name, strconv.Itoa(tokTextLen(token.Token(fv.Int())))})
+			res = append(res, [2]string{f.Name, strconv.Itoa(tokTextLen(f.Name, token.Token(fv.Int())))})
 		case f.Type.Kind() == reflect.String:
 			res = append(res, [2]string{f.Name, strconv.Itoa(fv.Len())})
 		case f.Type.Kind() == reflect.Bool:
@@ -157,7 +159,7 @@ func intField(n ast.Node, name string) (int, bool) {
 	case f.Type() == tokPosType:
 		return int(f.Int()), true
 	case f.Type() == tokTokType:
-		return tokTextLen(token.Token(f.Int())), true
+		return tokTextLen(name, token.Token(f.Int())), true
 	case f.Kind() == reflect.String:
 		return f.Len(), true
 	case f.Kind() == reflect.Bool:
